@@ -110,8 +110,11 @@ def finish(result, tier, t0, selftest=None, prog=None):
 
     ev_dir = os.environ.get("VERIF_EVIDENCE_DIR") or os.path.join(VERIF, "evidence")
     if os.environ.get("VERIF_NOWRITE"):
+        import atexit
+        import shutil
         import tempfile
         ev_dir = tempfile.mkdtemp(prefix="verif-ev-")
+        atexit.register(shutil.rmtree, ev_dir, True)          # a scratch run (evaluation tools): nothing is kept
     os.makedirs(ev_dir, exist_ok=True)
     replay_paths = []
     if new:
